@@ -6,5 +6,5 @@ mkdir -p build evidence replays
 python3 tools/gen.py > build/gen_report.json || true
 python3 -c "import sys; sys.path.insert(0,'lib'); import dv; dv.coq_project(); b=dv.forbidden_scan(); print('forbidden constructs:', b); sys.exit(1 if b else 0)"
 cd coq
-timeout 3000 make -k -j16 > ../build/setup_make.log 2>&1 || { tail -40 ../build/setup_make.log; echo "setup: some Coq files failed to build (the per-property checks report which)"; }
+timeout 3000 make -k -j16 'COQC=timeout 600 coqc' > ../build/setup_make.log 2>&1 || { tail -40 ../build/setup_make.log; echo "setup: some Coq files failed to build (the per-property checks report which)"; }
 echo "setup done"
